@@ -150,13 +150,13 @@ template <typename CoordType, typename ValueType>
 typename std::vector<std::pair<CoordType, ValueType>>
 KDTree<CoordType, ValueType>::within(
     const CoordType& low, const CoordType& high) const {
+  std::vector<std::pair<CoordType, ValueType>> ret;
   if (this->root == nullptr) {
-    throw std::out_of_range("no such item");
+    return ret;
   }
 
   std::deque<Node*> level_nodes;
   level_nodes.emplace_back(this->root);
-  std::vector<std::pair<CoordType, ValueType>> ret;
   while (!level_nodes.empty()) {
     Node* n = level_nodes.front();
     level_nodes.pop_front();
